@@ -1,16 +1,23 @@
 // C09 — upload stream, chunking and transport never change what gets signed.
 //
 // (a) the client-side transform of every fixture is read two and three times:
-//     identical bytes;
+//
+//	identical bytes;
+//
 // (b) read-size schedules: the server-side Sign of each streaming digester is
-//     fed the upload stream through a reader whose every Read size is dictated
-//     by the schedule (all constant sizes of a ladder, all ordered pairs as
-//     2-cycles, one short read at every read index of the default schedule);
-//     the patch is applied to the file and must verify with integrity on;
+//
+//	fed the upload stream through a reader whose every Read size is dictated
+//	by the schedule (all constant sizes of a ladder, all ordered pairs as
+//	2-cycles, one short read at every read index of the default schedule);
+//	the patch is applied to the file and must verify with integrity on;
+//
 // (c) request x response encodings through the real compression middleware and
-//     client;
+//
+//	client;
+//
 // (d) all failover histories through the real client request loop
-//     (doRequest) against scripted servers; the final success is a real /sign.
+//
+//	(doRequest) against scripted servers; the final success is a real /sign.
 package main
 
 import (
@@ -51,11 +58,11 @@ var scratch string
 
 type stream struct {
 	RereadOnly bool // only the read-it-again check (a); no read-size schedules
-	Name    string
-	SigType string
-	File    string // path of the input
-	Flags   url.Values
-	Hash    crypto.Hash
+	Name       string
+	SigType    string
+	File       string // path of the input
+	Flags      url.Values
+	Hash       crypto.Hash
 }
 
 func mkAPK(path string, payload int) {
